@@ -67,6 +67,35 @@ def run_seeded(prop, s, repo="/repo"):
         shutil.rmtree(tmp, ignore_errors=True)
 
 
+def load_benign_corpus(prop):
+    """behaviour-preserving refactors of this property's mechanism functions stored under benign/<prop>-*/ (written by
+    blind sub-agents, each checked against the tests and a bit-identical output digest): the check must stay silent"""
+    out = []
+    root = os.path.join(VERIF, "benign")
+    if not os.path.isdir(root):
+        return out
+    for d in sorted(os.listdir(root)):
+        if d.startswith(prop + "-") and os.path.exists(os.path.join(root, d, "patch.diff")):
+            out.append({"id": d, "patch": os.path.join(root, d, "patch.diff")})
+    return out
+
+
+def run_benign_corpus(prop, b, repo="/repo"):
+    tmp = tempfile.mkdtemp(prefix=f"verif-refactor-{prop}-")
+    try:
+        shutil.copytree(os.path.join(repo, "trimesh"), os.path.join(tmp, "trimesh"), ignore=shutil.ignore_patterns("__pycache__", "*.pyc"))
+        r = subprocess.run(["patch", "-p1", "-s", "-f", "-d", tmp, "-i", b["patch"]], capture_output=True, text=True)
+        if r.returncode != 0:
+            return {"id": b["id"], "kind": "refactor", "status": "not-applied", "why": (r.stdout + r.stderr)[:120]}
+        r = subprocess.run([os.path.join(VERIF, "check"), prop, "--repo", tmp, "--tier", "quick"], capture_output=True, text=True, timeout=900)
+        out = r.stdout + r.stderr
+        viol = [l.strip()[:200] for l in out.splitlines() if (l.startswith("  ") and re.search(r"\[[A-Z]\w*\]", l)) or "ANALYSIS-ERROR" in l]
+        status = "silent" if r.returncode == 0 else ("analysis-error" if r.returncode == 2 else "false-alarm")
+        return {"id": b["id"], "kind": "refactor", "status": status, "reported": viol[:2], "why": "; ".join(viol[:1])}
+    finally:
+        shutil.rmtree(tmp, ignore_errors=True)
+
+
 def run_variant(prop, v, repo="/repo"):
     tmp = tempfile.mkdtemp(prefix=f"verif-selftest-{prop}-")
     try:
